@@ -253,6 +253,94 @@ func init() {
 		}
 		return parseMulti(decPOpts(a[1]), &buf)
 	})
+	// multirtf <plain|gz|xz> <wopts> <popts> <xrows;xrows;…> : the same through a file, one WriteString per alignment
+	// (as cmd/root.go writeAlign does for every alignment of its input), read back with GetReader + ParseMultiple
+	register("multirtf", func(a []string) string {
+		dir, err := os.MkdirTemp("", "gvfmt")
+		if err != nil {
+			panic("harness: mkdirtemp")
+		}
+		defer os.RemoveAll(dir)
+		name := filepath.Join(dir, "a.phy")
+		if a[0] != "plain" {
+			name += "." + a[0]
+		}
+		f, err := utils.OpenWriteFile(name)
+		if err != nil {
+			return "err-open-write"
+		}
+		w := decWOpts(a[1])
+		for _, x := range strings.Split(a[3], ";") {
+			al, err := buildAlign("auto", decXRows(x))
+			if err != nil {
+				return "err-build"
+			}
+			if _, err = f.WriteString(phylip.WriteAlignment(al, w.strict, w.oneline, w.noblock)); err != nil {
+				return "err-write"
+			}
+		}
+		utils.CloseWriteFile(f, name)
+		fi, r, err := utils.GetReader(name)
+		if err != nil {
+			return "err-open-read"
+		}
+		defer fi.Close()
+		return parseMulti(decPOpts(a[2]), r)
+	})
+	// filechunks <plain|gz|xz> <n1,n2,…> : strings of the given sizes written one WriteString each; what GetReader
+	// returns must be their concatenation
+	register("filechunks", func(a []string) string {
+		dir, err := os.MkdirTemp("", "gvfmt")
+		if err != nil {
+			panic("harness: mkdirtemp")
+		}
+		defer os.RemoveAll(dir)
+		name := filepath.Join(dir, "chunks.txt")
+		if a[0] != "plain" {
+			name += "." + a[0]
+		}
+		f, err := utils.OpenWriteFile(name)
+		if err != nil {
+			return "err-open-write"
+		}
+		var want bytes.Buffer
+		x := uint32(2463534242)
+		for k, ns := range strings.Split(a[1], ",") {
+			n := atoi(ns)
+			b := make([]byte, n)
+			for i := range b {
+				x ^= x << 13
+				x ^= x >> 17
+				x ^= x << 5
+				b[i] = "ACGT-acgtNRYK\n>*"[x%16]
+			}
+			if n > 0 {
+				b[0] = byte('a' + k%26)
+			}
+			want.Write(b)
+			if _, err = f.WriteString(string(b)); err != nil {
+				return "err-write"
+			}
+		}
+		utils.CloseWriteFile(f, name)
+		fi, r, err := utils.GetReader(name)
+		if err != nil {
+			return "err-open-read"
+		}
+		defer fi.Close()
+		got, err := io.ReadAll(r)
+		if err != nil {
+			return "err-read"
+		}
+		if bytes.Equal(got, want.Bytes()) {
+			return "same"
+		}
+		d := 0
+		for d < len(got) && d < want.Len() && got[d] == want.Bytes()[d] {
+			d++
+		}
+		return fmt.Sprintf("differ at byte %d (read %d bytes, written %d)", d, len(got), want.Len())
+	})
 	// auto <strict> <hexbytes> : utils.ParseAlignmentAuto
 	register("auto", func(a []string) string {
 		al, f, err := utils.ParseAlignmentAuto(bufio.NewReader(bytes.NewReader(unhexz(a[1]))), atob(a[0]))
